@@ -262,7 +262,7 @@ def check_channel(R, prog):
                 R.bad(F("ERR-CHANNEL", m, "%s main() does not handle %s" % (tool, cls), "%s must end in a message and a non-zero exit status" % cls))
 
 
-def check_prefix(R, prog):
+def _shape_prefix(R, prog):
     markers = {"dimacs": "c ", "opb": "* ", "latex": "% "}
     for tool, mod, fmts in (("cnfgen", TOOLS["cnfgen"], ["dimacs", "latex", "opb"]), ("pbgen", TOOLS["pbgen"], ["latex", "opb"])):
         cli = prog.func(mod, "cli")
@@ -300,7 +300,57 @@ def check_prefix(R, prog):
         R.ok("PREFIX", "msg_prefix extends the current prefix for its body", mp.key, nontrivial=False)
 
 
+def check_prefix(R, prog):
+    from ..report import Result as _Result
+    from . import _cli_fold
+    T = _Result(P, "")
+    _shape_prefix(T, prog)
+    sems = {tool: _cli_fold.verdict(prog, tool) for tool in ("cnfgen", "pbgen")}
+    for o in T.obligations:
+        if o["status"] == "discharged":
+            R.ok(o["rule"], o["instance"], o["where"], nontrivial=o["nontrivial"])
+    R.floors.extend(T.floors)
+    for f_ in T.findings:
+        tool = "cnfgen" if (f_.module or "").endswith(".cnfgen") else ("pbgen" if (f_.module or "").endswith(".pbgen") else None)
+        if tool and sems[tool][0] is True and f_.function == "cli":
+            R.unknown(f_.rule, f_.construct, "%s:%s %s" % (f_.file, f_.line, f_.function),
+                      "shape not recognised (%s); the meaning of the fragment was confirmed by folding" % f_.message[:100])
+        else:
+            R.bad(f_)
+
+
 def check_convert(R, prog):
+    from ..report import Result as _Result
+    from . import _cli_fold
+    T = _Result(P, "")
+    broken = None
+    try:
+        _shape_convert(T, prog)
+    except AnalysisError as e:
+        broken = e
+    sems = {tool: _cli_fold.verdict(prog, tool) for tool in ("cnfgen", "pbgen")}
+    for tool, v in sems.items():
+        cli = prog.func(TOOLS[tool], "cli")
+        if v[0] is True:
+            R.ok("CONVERT", "%s: %s" % (tool, v[1]), cli.key)
+        elif v[0] is False:
+            R.bad(F("CONVERT", cli, "%s driver" % tool, v[1]))
+    if broken is not None and not all(v[0] is True for v in sems.values()):
+        raise broken
+    for o in T.obligations:
+        if o["status"] == "discharged":
+            R.ok(o["rule"], o["instance"], o["where"], nontrivial=o["nontrivial"])
+    R.floors.extend(T.floors)
+    for f_ in T.findings:
+        tool = "cnfgen" if (f_.module or "").endswith(".cnfgen") else ("pbgen" if (f_.module or "").endswith(".pbgen") else None)
+        if tool and sems[tool][0] is True:
+            R.unknown(f_.rule, f_.construct, "%s:%s %s" % (f_.file, f_.line, f_.function),
+                      "shape not recognised (%s); the meaning of the fragment was confirmed by folding" % f_.message[:100])
+        else:
+            R.bad(f_)
+
+
+def _shape_convert(R, prog):
     for tool, mod in (("cnfgen", TOOLS["cnfgen"]), ("pbgen", TOOLS["pbgen"])):
         cli = prog.func(mod, "cli")
         n = 0
